@@ -187,3 +187,12 @@ func (c *Conn) VerifTryOpenLong(part []byte) (opened, known bool) {
 	_, err = handshake.VerifPeekOpen(opener, data[n:n], data[n:], pn, data[:n])
 	return err == nil, true
 }
+
+// VerifZeroRTTLedger: 0-RTT packets (and their bytes in flight) still tracked by loss recovery; -1 when the
+// sent-packet handler does not expose it.
+func (c *Conn) VerifZeroRTTLedger() (packets int, bytesInFlight int64) {
+	if h, ok := c.sentPacketHandler.(interface{ VerifZeroRTTLedger() (int, int64) }); ok {
+		return h.VerifZeroRTTLedger()
+	}
+	return -1, -1
+}
